@@ -228,6 +228,9 @@ def main():
     for grid in grids:
         for mode in ('perturbed', 'total'):
             items.append(((3, 2, 3) if quick else (4, 2, 3), grid, (3, 3, 'cu'), mode, None))
+    # radial extent not divisible by three radial processes with remainder 2 (block starts are not rank*(n//p))
+    items.append(((5, 2, 3), (3, 1), (3, 3, 'cu'), 'perturbed', None))
+    items.append(((8, 2, 3), (3, 2), (3, 3, 'cu'), 'perturbed', None))
     for vs in ([(3, 2, 'nu')] if quick else [(1, 3, 'nu'), (2, 3, 'nu'), (3, 2, 'nu'), (4, 2, 'nu'), (5, 1, 'nu'), (3, 5, 'cu')]):
         items.append(((3, 2, 3), (2, 2), vs, 'perturbed', None))
     for cn in CANARIES:
@@ -243,7 +246,7 @@ def main():
         hit = caught.get(cn[0], False)
         run.canaries.append(dict(name=cn[0], detected=hit))
         if not hit:
-            run.inconc('canary not detected: %s' % cn[0])
+            run.canary_miss(cn[0], caught)
     numenv.enable(extra_modules=[(ps, None), (m['init_funcs'], None)])
     run.stubs = sorted(set(numenv.STUBS)) + ['exp/tanh/sqrt: uninterpreted functions', 'mpi4py.MPI: lib/simmpi']
     numenv.disable()
